@@ -247,10 +247,12 @@ class HGen:
     """Generates one history and, alongside, what the value semantics says about columns, plus the shape flags the
     signatures of known findings are made of."""
 
-    def __init__(self, rnd, maxlen, add_if_absent=True, skip_own=False, user_only=False, tables_only=False):
+    def __init__(self, rnd, maxlen, add_if_absent=True, skip_own=False, user_only=False, tables_only=False,
+                 hash_user=False, dedupe=False):
         # the T1 facts about session.sql / replace_id_value: a finding's shape is a candidate signature only while the
         # source still has the defective shape
         self.skip_own, self.user_only, self.tables_only = skip_own, user_only, tables_only
+        self.hash_user, self.dedupe = hash_user, dedupe
         self.r = rnd
         self.eg = EGen(rnd)
         self.maxlen = maxlen
@@ -459,7 +461,7 @@ class HGen:
         if any(n in cte_names for n in view_refs) and not self.skip_own:
             cands.append(SIG_HIJACK)
         for n in real_view_refs:
-            if any(c in self.views[n]["embedded"] for c in cte_names):
+            if any(c in self.views[n]["embedded"] for c in cte_names) and not self.hash_user:
                 cands.append(SIG_CAPTURE)
         for n in real_view_refs:
             if n in BASE["tables"] and n in self.views[n]["reads"] and not self.user_only:
@@ -533,7 +535,7 @@ class HGen:
             return hit or any(aliasref(i) for i in inner)
         if not self.cache and (aliasref(q["main"]) or any(aliasref(b) for _, b in q["ctes"])):
             cands.append(SIG_ALIASREF)
-        if q["ctes"] or any(self.views[n]["embedded"] for n in real_view_refs):
+        if (q["ctes"] or any(self.views[n]["embedded"] for n in real_view_refs)) and not self.dedupe:
             cands.append(SIG_DUPCTE)        # accepted only together with DuckDB's `Duplicate CTE name`
         aliases = [a.lower() for a in (([a for _, a in q["main"][3]] if q["main"][0] == "sel" and q["main"][3] else []) +
                                        ([a for _, a in q["main"][3]] + [a for _, _, a in q["main"][4]] if q["main"][0] == "agg" else []))]
@@ -669,7 +671,7 @@ class HGen:
             self.emit(["joinb", h1, h2, kcol, rc],
                       f"(SJoinB {natlit(h1)} {natlit(h2)} {strlit(kcol)} {listlit([strlit(c) for c in rc])})", "joinb", sig,
                       f"heap[{h1}].join(heap[{h2}].select({kcol!r}, others AS <c>_r), on={kcol!r})",
-                      ([sig] if sig else []) + ([SIG_DUPCTE] if self.heap[h1]["embedded"] or self.heap[h2]["embedded"] else [])
+                      ([sig] if sig else []) + ([SIG_DUPCTE] if (self.heap[h1]["embedded"] or self.heap[h2]["embedded"]) and not self.dedupe else [])
                       + ([SIG_REJOIN] if h2 in self.heap[h1].get("joined", set()) else []))
             self.push(out, self.heap[h1]["embedded"] | self.heap[h2]["embedded"], taint=sig,
                       reads=self.heap[h1]["reads"] | self.heap[h2]["reads"],
@@ -858,7 +860,8 @@ def run(ctx: core.Ctx):
         t1_ok = True
         add_if_absent = bool(facts[0]["value"])
         flags = {"skip_own": bool(facts[3]["value"]["skip_own"]), "user_only": bool(facts[3]["value"]["user_only"]),
-                 "tables_only": bool(facts[4]["value"])}
+                 "tables_only": bool(facts[4]["value"]), "hash_user": bool(facts[3]["value"]["hash_user"]),
+                 "dedupe": bool(facts[5]["value"])}
     except Exception as ex:
         ctx.broken("T1:c13_facts", f"{type(ex).__name__}: {ex}")
         t1_ok = False
@@ -867,8 +870,9 @@ def run(ctx: core.Ctx):
         # the search continues with the facts of the pinned source (also for the shapes of the fixed findings)
         w = re.search(r"mkCfg ((?:\w+ ?)+)\.", pinned).group(1).split()
         add_if_absent = w[0] == "true"
-        flags = {"skip_own": w[7] == "true", "user_only": w[8] == "true",
-                 "tables_only": "cte_rename_tables_only : bool := true" in pinned}
+        flags = {"skip_own": w[7] == "true", "user_only": w[8] == "true", "hash_user": w[9] == "true",
+                 "tables_only": "cte_rename_tables_only : bool := true" in pinned,
+                 "dedupe": "cte_hash_dedupe : bool := true" in pinned}
     # ---- proofs
     ctx.log("T1 done")
     proved = ctx.prove([ctx.build + "/gen/C13Facts.v"] + ([core.COQ + "/props/C13.v"] if t1_ok else []), dep_theories=DEPS)
